@@ -267,7 +267,8 @@ def match_sequence_type(value: Any,
     :param strict: if `False` match xs:anyURI with strings.
     """
     def match_st(v: Any, st: str, occurrence: str | None = None) -> bool:
-        if st[-1] in ('*', '+', '?') and ') as ' not in st:
+        if st[-1] in ('*', '+', '?') and \
+                not (st.startswith('function(') and ') as ' in st):
             return match_st(v, st[:-1], st[-1])
         elif v is None or v == []:
             return st in ('empty-sequence()', 'none') or occurrence in ('?', '*')
